@@ -9,6 +9,7 @@ from .exprs import _join_ty, _same_heap
 
 
 _REC_CACHE = {}
+STD_AS_BUILTIN = {'itertools.islice': 'islice', 'typing.cast': 'cast'}
 
 
 class SpecFn:
@@ -34,12 +35,20 @@ class CallMixin:
                 o = st.old
                 tmp = st.copy()
                 tmp.env = dict(o.env)
+                for k_, v_ in st.env.items():       # bound variables of enclosing quantifiers, `result`, lets
+                    tmp.env.setdefault(k_, v_)
                 tmp.heap = dict(o.heap)
                 tmp.ghost = dict(o.ghost)
                 tmp.old = None
                 v = self.ev1(e.args[0], tmp)
                 st.pc[:] = tmp.pc
                 yield st, v
+                return
+            if f.id == 'arg_of':
+                key = f'$arg:{e.args[0].value}:{e.args[1].value}'
+                if key not in st.env:
+                    raise Unsupported(f'arg_of: no call of {e.args[0].value} on this path')
+                yield st, st.env[key]
                 return
             if f.id == 'unfold':
                 # unfold(f(args)): the defining equation of an opaque (non-recursive) spec function at these arguments
@@ -63,10 +72,20 @@ class CallMixin:
                 yield st, V(BOOL, uf.t == body.t)
                 return
             if f.id == 'entry':
+                # entry(expr): value of expr in the state at the head of the current loop iteration
                 ent = st.env.get('$entry')
-                if ent is None or not isinstance(e.args[0], ast.Name):
+                if ent is None:
                     raise Unsupported('entry(x) outside a loop body')
-                yield st, ent.t[e.args[0].id]
+                o = ent.t
+                tmp = st.copy()
+                tmp.env = dict(o.env)
+                for k_, v_ in st.env.items():
+                    tmp.env.setdefault(k_, v_)
+                tmp.heap = dict(o.heap)
+                tmp.ghost = dict(o.ghost)
+                v = self.ev1(e.args[0], tmp)
+                st.pc[:] = tmp.pc
+                yield st, v
                 return
             if f.id == 'implies':
                 a = self.truthy(self.ev1(e.args[0], st))
@@ -220,6 +239,9 @@ class CallMixin:
             return
         if ty is MOD:
             name = p if isinstance(p, str) else None
+            if name in STD_AS_BUILTIN and name not in self.reg.external:
+                yield from self.call_builtin(STD_AS_BUILTIN[name], args, kwargs, st, exits, e)
+                return
             if name is not None:
                 yield from self.call_external(name, args, kwargs, st, exits, e)
                 return
@@ -451,6 +473,8 @@ class CallMixin:
                 bound[nm] = self.coerce(bound[nm], parse_type(tt, self.reg.enums), st)
         if c.self_type and 'self' in bound:
             bound['self'] = self.coerce(bound['self'], parse_type(c.self_type, self.reg.enums), st)
+        if self.binder_depth > 0 and not (c.pure and not c.modifies):
+            raise Unsupported(f'call of non-pure {c.qualname} under a bound variable (comprehension/quantifier)')
         key = f'{c.file}:{c.qualname}'
         if c.assumed:
             self.assumptions_used[key] = f'assumed contract of {c.qualname}' + (f' ({c.source})' if c.source else '')
@@ -458,6 +482,9 @@ class CallMixin:
         # evaluate clauses in the callee's parameter environment
         cenv = dict(bound)
         caller_env = st.env
+        for pn, pv in bound.items():      # arg_of('callee', 'param') in later hints/asserts of the caller
+            if not isinstance(pv.ty, TPy):
+                caller_env[f'$arg:{c.qualname}:{pn}'] = pv
         st.env = cenv
         try:
             for nm, tx in c.lets.items():
@@ -471,7 +498,6 @@ class CallMixin:
             pre = st.snapshot()
             # havoc the frame
             for m in c.modifies:
-                self.check_loop_frame(m)
                 if m in st.ghost:
                     st.ghost[m] = fresh(st.ghost[m].ty, m)
                 else:
@@ -508,6 +534,8 @@ class CallMixin:
             rty = parse_type(c.returns, self.reg.enums) if c.returns else NONE
             if rty is NONE:
                 res = NONE_V
+            elif c.pure and not c.modifies and c.result_is:
+                res = self.coerce(self.ev_spec_val(c.result_is, st), rty, None)
             elif c.pure and not c.modifies:
                 res = self.pure_result(c, rty, bound, st)
             else:
@@ -744,6 +772,26 @@ class CallMixin:
                 tt = TTuple([x.ty for x in xs])
                 return V(tt, tt.mk([x.t for x in xs]))
             return z3.simplify(n), getz
+        if isinstance(ty, TPy) and ty.kind == 'map':
+            fn, inner = it.t
+            r = self.iter_seq(inner, st)
+            if r is None:
+                return None
+            n, g = r
+
+            def getm(k):
+                sub = st.copy()
+                base = len(sub.pc)
+                ex = []
+                self.binder_depth += 1
+                try:
+                    res = list(self.apply(fn, [g(k)], {}, sub, ex, None))
+                finally:
+                    self.binder_depth -= 1
+                if len(res) != 1 or ex or res[0][0].pc[base:]:
+                    raise Unsupported('map(): the function forks, may raise or has a contract with postconditions')
+                return res[0][1]
+            return n, getm
         if isinstance(ty, TPy) and ty.kind == 'reversed':
             r = self.iter_seq(it.t, st)
             if r is None:
@@ -815,6 +863,29 @@ class CallMixin:
             if r is None:
                 raise Unsupported(f'any/all over {it.ty}')
             n, g = r
+            if it.ty is RANGE:
+                # quantify over the range itself (no index shifting: keeps instantiation terms recognisable)
+                lo_, hi_ = it.t
+                k = z3.Int(fresh_name('q'))
+                sub = st2.copy()
+                rng = z3.And(k >= lo_, k < hi_)
+                sub.assume(rng)
+                base = len(sub.pc)
+                list(self.assign(gen.target, V(INT, k), sub, exits))
+                self.binder_depth += 1
+                try:
+                    conds = [self.truthy(self.ev1q(c, sub)) for c in gen.ifs]
+                    body = self.truthy(self.ev1q(comp.elt, sub))
+                finally:
+                    self.binder_depth -= 1
+                extra = sub.pc[base:]
+                if extra:
+                    st2.assume(z3.ForAll([k], z3.Implies(rng, z3.And(extra))))
+                if which == 'all':
+                    yield st2, V(BOOL, z3.ForAll([k], z3.Implies(z3.And([rng] + conds), body)))
+                else:
+                    yield st2, V(BOOL, z3.Exists([k], z3.And([rng] + conds + [body])))
+                continue
             nn = z3.simplify(n)
             if z3.is_int_value(nn) and nn.as_long() == 0:
                 yield st2, mk_bool(which == 'all')
@@ -824,18 +895,73 @@ class CallMixin:
             sub.assume(z3.And(k >= 0, k < n))
             base = len(sub.pc)
             list(self.assign(gen.target, g(k), sub, exits))
-            conds = [self.truthy(self.ev1q(c, sub)) for c in gen.ifs]
-            body = self.truthy(self.ev1q(comp.elt, sub))
+            self.binder_depth += 1
+            try:
+                conds = [self.truthy(self.ev1q(c, sub)) for c in gen.ifs]
+                body = self.truthy(self.ev1q(comp.elt, sub))
+            finally:
+                self.binder_depth -= 1
             extra = sub.pc[base:]
-            # facts produced while evaluating the body are local to the bound variable
+            # facts produced while evaluating the body (postconditions of pure callees at the bound variable)
+            # hold for every value in range: they are assumed universally
             rng = z3.And(k >= 0, k < n)
             if extra:
-                raise Unsupported('quantifier body introduces facts')
+                st2.assume(z3.ForAll([k], z3.Implies(rng, z3.And(extra))))
             if which == 'all':
                 q = z3.ForAll([k], z3.Implies(z3.And([rng] + conds), body))
             else:
                 q = z3.Exists([k], z3.And([rng] + conds + [body]))
             yield st2, V(BOOL, q)
+
+    def alloc_comprehension(self, e, gen, g, n, k, rng, sub, st):
+        """[C(x) for x in xs] where C is a sequence-like class without __init__ (a deque subclass):
+        a sequence of fresh, pairwise distinct objects whose items are copies of the arguments"""
+        elt = e.elt
+        if gen.ifs or not (isinstance(elt, ast.Call) and isinstance(elt.func, ast.Name) and len(elt.args) == 1
+                           and not elt.keywords):
+            return None
+        try:
+            cv = self.lookup(elt.func.id, st)
+        except Unsupported:
+            return None
+        if cv.ty is not CLS or isinstance(cv.t, tuple):
+            return None
+        ci = cv.t
+        sh = self.reg.shapes.get(ci.name)
+        if sh is None or '__items__' not in sh.fields:
+            return None
+        if self.src.lookup_method(ci, '__init__')[1] is not None:
+            return None
+        ity = parse_type(sh.fields['__items__'], self.reg.enums)
+        arg = self.ev1q(elt.args[0], sub)
+        src = self.seq_of(arg, sub)
+        if sub.pc[len(st.pc) + 1:]:
+            raise Unsupported('allocating comprehension: argument introduces facts')
+        rty = TRef(ci.name)
+        out = fresh(TSeq(rty), 'newobjs')
+        alloc = st.ghost.get('$alloc')
+        if alloc is None:
+            alloc = V(TSet(rty), z3.Const('alloc0', z3.ArraySort(RefSort(), z3.BoolSort())))
+        j = z3.Int(fresh_name('j'))
+        st.assume(z3.Length(out.t) == n)
+        st.assume(z3.ForAll([k], z3.Implies(rng, z3.And(z3.Not(z3.Select(alloc.t, out.t[k])), out.t[k] != null(),
+                                                       self.typeof(out.t[k]) == self.cls_code(ci.name))),
+                            patterns=[out.t[k]]))
+        st.assume(z3.ForAll([k, j], z3.Implies(z3.And(rng, j >= 0, j < n, j != k), out.t[k] != out.t[j]),
+                            patterns=[z3.MultiPattern(out.t[k], out.t[j])]))
+        old = self.heap_arr(st, '__items__', ity)
+        new = z3.Const(fresh_name('H___items__'), old.sort())
+        r = z3.Const(fresh_name('r'), RefSort())
+        st.assume(z3.ForAll([k], z3.Implies(rng, z3.Select(new, out.t[k]) == self.coerce(src, ity).t),
+                            patterns=[out.t[k]]))
+        st.assume(z3.ForAll([r], z3.Implies(z3.Select(alloc.t, r), z3.Select(new, r) == z3.Select(old, r)),
+                            patterns=[z3.Select(new, r)]))
+        st.heap['__items__'] = new
+        na = z3.Const(fresh_name('alloc'), alloc.t.sort())
+        st.assume(z3.ForAll([r], z3.Implies(z3.Select(alloc.t, r), z3.Select(na, r)), patterns=[z3.Select(na, r)]))
+        st.assume(z3.ForAll([k], z3.Implies(rng, z3.Select(na, out.t[k])), patterns=[out.t[k]]))
+        st.ghost['$alloc'] = V(alloc.ty, na)
+        return out
 
     def ev1q(self, e, st):
         self.spec_mode += 1
@@ -884,7 +1010,15 @@ class CallMixin:
             base = len(sub.pc)
             list(self.assign(gen.target, g(k), sub, exits))
             sub_exits = []
-            res = list(self.ev(e.elt, sub, sub_exits))
+            alloc = self.alloc_comprehension(e, gen, g, n, k, rng, sub, st2)
+            if alloc is not None:
+                yield st2, alloc
+                continue
+            self.binder_depth += 1
+            try:
+                res = list(self.ev(e.elt, sub, sub_exits))
+            finally:
+                self.binder_depth -= 1
             if sub_exits and not self.spec_mode:
                 # an element computation that may raise: the exception escapes the comprehension
                 for o in sub_exits:
@@ -905,7 +1039,14 @@ class CallMixin:
                 body = out.t[k] == elt.t
                 if extra:
                     body = z3.And([body] + extra)
-                st2.assume(z3.ForAll([k], z3.Implies(rng, body), patterns=[out.t[k]]))
+                pats = [out.t[k]]
+                try:
+                    src_t = g(k).t
+                    if z3.is_app(src_t) and src_t.num_args() > 0 and not isinstance(g(k).ty, TPy):
+                        pats.append(src_t)        # alternative trigger: the source element
+                except Exception:
+                    pass
+                st2.assume(z3.ForAll([k], z3.Implies(rng, body), patterns=pats))
             else:
                 conds = [self.truthy(self.ev1q(c, sub)) for c in gen.ifs]
                 j = z3.Int(fresh_name('j'))
